@@ -1688,10 +1688,11 @@ char *hostlist_pop(hostlist_t hl)
         hostrange_t hr = hl->hr[hl->nranges - 1];
         host = hostrange_pop(hr);
         hl->nhosts--;
-        if (hostrange_empty(hr)) {
-            hostrange_destroy(hl->hr[--hl->nranges]);
-            hl->hr[hl->nranges] = NULL;
-        }
+        if (hostrange_empty(hr))
+            hostlist_delete_range(hl, hl->nranges - 1);
+        else
+            hostlist_shift_iterators(hl, hl->nranges - 1,
+                                     hostrange_count(hr), 0);
     }
     UNLOCK_HOSTLIST(hl);
     return host;
